@@ -1,6 +1,7 @@
 #!/bin/bash
 # For every kept seeded change: all 20 checks on a scratch copy with the change applied; lists which properties' checks
-# report it (own property first). Output: seeded/CROSS.md   (RPAR seeds at a time, PAR checks each)
+# report it (own property first). Output: seeded/CROSS.md   (RPAR seeds at a time, PAR checks each; ONLY_NEW=1 keeps the
+# existing rows and runs only the changes that have none)
 cd /verif
 tmp=$(mktemp -d)
 one() {
@@ -19,8 +20,15 @@ one() {
   rm -rf $scr
 }
 export -f one
-ls -d seeded/*/ | xargs -P ${RPAR:-3} -I{} bash -c 'one {}' > $tmp/out 2>&1
 out=seeded/CROSS.md
+if [ -n "$ONLY_NEW" ] && [ -f $out ]; then
+  # keep the rows already there, run only the changes that have none yet
+  grep '^| C' $out | sed -E 's/^\| ([^ ]+) \| ([^ ]+) \| ?(.*) \|$/\1 \2 \3/' > $tmp/old
+  ls -d seeded/*/ | while read d; do n=$(basename $d); grep -q "^$n " $tmp/old || echo $d; done | xargs -P ${RPAR:-3} -I{} bash -c 'one {}' > $tmp/out 2>&1
+  cat $tmp/old >> $tmp/out
+else
+  ls -d seeded/*/ | xargs -P ${RPAR:-3} -I{} bash -c 'one {}' > $tmp/out 2>&1
+fi
 echo "| seeded change | property | checks that report it |" > $out
 echo "|---|---|---|" >> $out
 sort $tmp/out | while read n p hits; do echo "| $n | $p | $hits |" >> $out; done
